@@ -24,15 +24,16 @@ Proof.
   - inversion H; subst. rewrite eqb_reflx. cbn. apply IH. reflexivity.
 Qed.
 
+Lemma sw_cons2 : forall a b t, switch_encoding (a :: b :: t) = xorb a b :: switch_encoding (b :: t).
+Proof. reflexivity. Qed.
+
 Lemma sw_complement : forall p, switch_encoding (complement p) = switch_encoding p.
 Proof.
   induction p as [|a p IH]; [reflexivity|].
   destruct p as [|b p]; [reflexivity|].
-  change (complement (a :: b :: p)) with (negb a :: complement (b :: p)).
-  change (complement (b :: p)) with (negb b :: complement p) at 1.
-  cbn [switch_encoding].
-  change (negb b :: complement p) with (complement (b :: p)).
-  rewrite IH. f_equal. destruct a, b; reflexivity.
+  change (complement (a :: b :: p)) with (negb a :: negb b :: complement p).
+  change (complement (b :: p)) with (negb b :: complement p) in IH.
+  rewrite !sw_cons2, IH. f_equal. destruct a, b; reflexivity.
 Qed.
 
 Lemma sw_length : forall p, length (switch_encoding p) = length p - 1.
@@ -221,15 +222,19 @@ Proof.
   pose proof (compare_block_het p0 (complement p1)) as H2.
   rewrite complement_involutive, complement_length in H2. specialize (H2 Hl).
   pose proof (compare_block_het p1 p0 (eq_sym Hl)) as H3.
-  rewrite (compare_block_het p0 p1 Hl).
-  rewrite H1, H2, H3. clear H1 H2 H3.
-  rewrite !sw_complement, compute_switch_flips_compl_l, compute_switch_flips_compl_r.
-  rewrite (hamming_compl_l p0 p1), (hamming_compl_both p0 p1).
-  rewrite (Nat.min_comm (hamming p0 (complement p1)) (hamming p0 p1)).
-  rewrite (hamming_sym (switch_encoding p1)), (hamming_sym p1 p0).
-  rewrite (hamming_sym p1 (complement p0)), (hamming_compl_l p0 p1).
-  rewrite (compute_switch_flips_sym p1 p0 (eq_sym Hl)).
-  repeat split; reflexivity.
+  pose proof (compare_block_het p0 p1 Hl) as H0.
+  split; [|split].
+  - etransitivity; [exact H1|]. etransitivity; [|symmetry; exact H0].
+    rewrite sw_complement, compute_switch_flips_compl_l.
+    rewrite (hamming_compl_l p0 p1), (hamming_compl_both p0 p1).
+    rewrite (Nat.min_comm (hamming p0 (complement p1)) (hamming p0 p1)). reflexivity.
+  - etransitivity; [exact H2|]. etransitivity; [|symmetry; exact H0].
+    rewrite sw_complement, compute_switch_flips_compl_r.
+    rewrite (Nat.min_comm (hamming p0 (complement p1)) (hamming p0 p1)). reflexivity.
+  - etransitivity; [exact H3|]. etransitivity; [|symmetry; exact H0].
+    rewrite (hamming_sym (switch_encoding p1)), (hamming_sym p1 p0).
+    rewrite (hamming_sym p1 (complement p0)), (hamming_compl_l p0 p1).
+    rewrite (compute_switch_flips_sym p1 p0 (eq_sym Hl)). reflexivity.
 Qed.
 
 (* ------------------------------------------------------------------------------------------ *)
@@ -243,7 +248,8 @@ Proof.
   - destruct pos; reflexivity.
   - destruct pos as [|x pt]; [discriminate|]. cbn [length] in *.
     destruct pt as [|y pt']; [discriminate|].
-    cbn [bed_loop hamming_by]. rewrite app_length, IH by (cbn [length]; lia).
+    cbn [bed_loop hamming_by]. rewrite app_length.
+    rewrite (IH t1 (y :: pt')); try (cbn [length] in *; lia).
     destruct (xorb a b); reflexivity.
 Qed.
 
